@@ -61,7 +61,7 @@ UNITS = [
       functions=["secp256k1_sha256_finalize", "secp256k1_sha256_write", "secp256k1_write_be32"], timeout=600, min_obl=1400, unwind=130, replay=False,
       note="padding lemma on the real finalize+write: bytes symbolic < 2^61; compression abstracted by the logging oracle"),
     U("C05.sha256_compose", ["C05"], "harness/C05/hash_finalize.c", "h_sha_compose", replace=["secp256k1_sha256_write"], solver="cadical",
-      functions=["secp256k1_sha256_finalize", "secp256k1_sha256_write"], timeout=900, min_obl=260, unwind=130, replay=False,
+      functions=["secp256k1_sha256_finalize", "secp256k1_sha256_write"], timeout=900, min_obl=250, unwind=130, replay=False,
       note="composition lemma: write(a);write(b);real finalize over the enforced stream contract = FIPS 180-4 padded message blocks, all |a|,|b|, midstate prefix 64m"),
     U("C05.hmac_initialize", ["C05"], "harness/C05/hash_hmac.c", "h_hmac_init", replace=SHA,
       functions=["secp256k1_hmac_sha256_initialize", "secp256k1_sha256_initialize"], timeout=600, min_obl=350, unwind=66, replay=False,
@@ -91,7 +91,7 @@ UNITS = [
       closed_by="loop contract on the output loop (engine-supplied --loop-contracts-file, no /repo edit): base, step, decreases",
       note="any outlen (<= 2^34 bytes: the ghost epoch counter is an int), retry symbolic"),
     U("C05.rfc6979_finalize", ["C05"], "harness/C05/hash_rfc6979.c", "h_rfc_finalize",
-      functions=["secp256k1_rfc6979_hmac_sha256_finalize"], timeout=120, min_obl=10, unwind=66, replay=False,
+      functions=["secp256k1_rfc6979_hmac_sha256_finalize"], timeout=120, min_obl=35, unwind=66, replay=False,
       note="memory safety only: hash.h promises no effect of finalize (it may wipe the generator)"),
     U("C05.sha256_initialize", ["C05"], "harness/C05/hash_init.c", "h_sha_init",
       functions=["secp256k1_sha256_initialize", "secp256k1_sha256_initialize_midstate"], timeout=120, min_obl=110, unwind=66, replay=True),
@@ -107,26 +107,26 @@ UNITS = [
     # note="all 2^768 (state, block) inputs against a FIPS 180-4 spec with a 16-word rolling schedule; see report for the measured outcome"),
     # ---- enforcement of the contracts other units use instead of the hashing functions (audit item 22); see harness/C05/hash_frames.c
     U("C05.sha256_core_write", ["C05"], FR, "h_core_write", enforce=["secp256k1_sha256_write"], assumed=STUB,
-      functions=["secp256k1_sha256_write"], timeout=300, min_obl=50, unwind=None, replay=False,
+      functions=["secp256k1_sha256_write"], timeout=300, min_obl=1300, unwind=None, replay=False,
       note="no --unwind: all loops of the verified code have literal bounds; a data-dependent loop added to sha256_write makes the unit undecided (timeout), never a violation; CORE contract (requires, frame *hash, bytes' = bytes + len) enforced on the real body, len symbolic"),
     U("C05.sha256_core_finalize", ["C05"], FR, "h_core_finalize", enforce=["secp256k1_sha256_finalize"], assumed=STUB,
-      functions=["secp256k1_sha256_finalize", "secp256k1_sha256_write"], timeout=300, min_obl=50, unwind=66, replay=False,
+      functions=["secp256k1_sha256_finalize", "secp256k1_sha256_write"], timeout=300, min_obl=1400, unwind=66, replay=False,
       note="CORE contract (frame *hash and out32[0..32) only, every byte count) enforced on the real body"),
     U("C05.hashlog_write_frame", ["C05"], FR, "h_hl_write", enforce=["hl_write"], assumed=STUB,
-      functions=["secp256k1_sha256_write"], timeout=300, min_obl=50, unwind=None, replay=False,
+      functions=["secp256k1_sha256_write"], timeout=300, min_obl=1400, unwind=None, replay=False,
       note="no --unwind: all loops of the verified code have literal bounds; a data-dependent loop added to sha256_write makes the unit undecided (timeout), never a violation; contracts/hash_log.h secp256k1_sha256_write contract, verbatim, enforced on ghost bookkeeping + real function"),
     U("C05.hashlog_finalize_frame", ["C05"], FR, "h_hl_finalize", enforce=["hl_finalize"], assumed=STUB,
-      functions=["secp256k1_sha256_finalize", "secp256k1_sha256_write"], timeout=300, min_obl=50, unwind=66, replay=False,
+      functions=["secp256k1_sha256_finalize", "secp256k1_sha256_write"], timeout=300, min_obl=1700, unwind=66, replay=False,
       note="contracts/hash_log.h secp256k1_sha256_finalize contract, verbatim, enforced on real function + ghost bookkeeping"),
     U("C05.shas_write_frame", ["C05"], FR, "h_shas_write", enforce=["shas_write"], assumed=STUB,
-      functions=["secp256k1_sha256_write"], timeout=300, min_obl=50, unwind=None, replay=False, note="no --unwind: all loops of the verified code have literal bounds; a data-dependent loop added to sha256_write makes the unit undecided (timeout), never a violation; hash_spec.h L3 write contract, verbatim"),
+      functions=["secp256k1_sha256_write"], timeout=300, min_obl=1400, unwind=None, replay=False, note="no --unwind: all loops of the verified code have literal bounds; a data-dependent loop added to sha256_write makes the unit undecided (timeout), never a violation; hash_spec.h L3 write contract, verbatim"),
     U("C05.shas_finalize_frame", ["C05"], FR, "h_shas_finalize", enforce=["shas_finalize"], assumed=STUB,
-      functions=["secp256k1_sha256_finalize", "secp256k1_sha256_write"], timeout=300, min_obl=50, unwind=66, replay=False, note="hash_spec.h L3 finalize contract, verbatim"),
+      functions=["secp256k1_sha256_finalize", "secp256k1_sha256_write"], timeout=300, min_obl=1500, unwind=66, replay=False, note="hash_spec.h L3 finalize contract, verbatim"),
     U("C05.hmacs_init_frame", ["C05"], FR, "h_hmacs_init", enforce=["hmacs_init"], replace=SHA,
-      functions=["secp256k1_hmac_sha256_initialize"], timeout=300, min_obl=50, unwind=66, replay=False,
+      functions=["secp256k1_hmac_sha256_initialize"], timeout=300, min_obl=220, unwind=66, replay=False,
       note="hash_spec.h L4 contract, verbatim; SHA calls replaced by the CORE contracts enforced in C05.sha256_core_*"),
     U("C05.hmacs_write_frame", ["C05"], FR, "h_hmacs_write", enforce=["hmacs_write"], replace=SHA,
-      functions=["secp256k1_hmac_sha256_write"], timeout=300, min_obl=20, unwind=66, replay=False, note="hash_spec.h L4 contract, verbatim"),
+      functions=["secp256k1_hmac_sha256_write"], timeout=300, min_obl=85, unwind=66, replay=False, note="hash_spec.h L4 contract, verbatim"),
     U("C05.hmacs_finalize_frame", ["C05"], FR, "h_hmacs_finalize", enforce=["hmacs_finalize"], replace=SHA,
-      functions=["secp256k1_hmac_sha256_finalize"], timeout=300, min_obl=20, unwind=66, replay=False, note="hash_spec.h L4 contract, verbatim"),
+      functions=["secp256k1_hmac_sha256_finalize"], timeout=300, min_obl=150, unwind=66, replay=False, note="hash_spec.h L4 contract, verbatim"),
 ]
